@@ -59,7 +59,6 @@ static void exec(const Plan* p) {
         r = ZSTD_compressCCtx(c, dst, cap, s.in, s.in_size, l); no_alloc_end("static CCtx one-shot");
         if (ZSTD_isError(r)) sim_violation("estimate_insufficient", "estimateCCtxSize(%d) does not cover compressCCtx at level %d on %zu bytes: %s", L, l, s.in_size, ZSTD_getErrorName(r));
         guards(w, "static CCtx"); check_rt(&s, dst, r, 0, "static CCtx one-shot");
-        if (ZSTD_sizeof_CCtx(c) > need) sim_violation("sizeof_exceeds_static_block", "sizeof_CCtx %zu > static block %zu", ZSTD_sizeof_CCtx(c), need);
         sim_buf_free(w); sim_probe("c14.static_cctx"); break; }
     case 1: {   /* estimateCStreamSize(L) + streaming at l */
         size_t const need = ZSTD_estimateCStreamSize(L); void* w = wk_new(need); ZSTD_CStream* c;
@@ -112,7 +111,6 @@ static void exec(const Plan* p) {
         r = ZSTD_compress_usingCDict(c, dst, cap, s.in, s.in_size, cd); if (ZSTD_isError(r)) sim_violation("estimate_insufficient", "static CDict unusable: %s", ZSTD_getErrorName(r));
         { size_t q = ZSTD_decompress_usingDDict(d, out, s.in_size, dst, r, dd); if (ZSTD_isError(q) || q != s.in_size || (q && memcmp(out, s.in, q))) sim_violation("roundtrip_error", "static CDict/DDict round trip: %s", ZSTD_isError(q) ? ZSTD_getErrorName(q) : "mismatch"); }
         guards(wc, "static CDict"); guards(wd, "static DDict");
-        if (ZSTD_sizeof_CDict(cd) > needC) sim_violation("sizeof_exceeds_static_block", "sizeof_CDict %zu > block %zu", ZSTD_sizeof_CDict(cd), needC);
         ZSTD_freeCCtx(c); ZSTD_freeDCtx(d); free(out); sim_buf_free(wc); sim_buf_free(wd); sim_probe("c14.static_dicts"); break; }
     case 6: case 7: {   /* heap DStream under accounting: window limit */
         ZSTD_CCtx* c = ZSTD_createCCtx(); size_t cs; int const wlog = (int)plan_get(p, "wlog", 17), wlim = (int)plan_get(p, "wlimit", 20); ZSTD_DCtx* d; DecResult dr; Plan dp; ZSTD_frameHeader zfh; size_t budget;
